@@ -84,6 +84,11 @@ fn strip_swap_guard(op: &Op) -> Op {
             *max_spread = None;
         }
         Op::Provide { slippage, .. } => *slippage = None,
+        Op::Batch(ops) => {
+            for x in ops.iter_mut() {
+                *x = strip_swap_guard(x);
+            }
+        }
         _ => {}
     }
     o
@@ -386,12 +391,15 @@ fn c15_eval(
 
 /// failure-side clauses: the step failed and nothing was committed, so the chain is still in
 /// the state the step executed in; run the same operation without its guard parameter.
-pub fn differential(sim: &mut Sim, ev: &Event, sender: &str, pre: &PreObs, cov: &mut Cover) {
+/// `ev` is the (possibly simplified) event the oracles judge; `orig_op` is the operation that
+/// was actually executed (e.g. the whole approve+provide batch): the probe re-executes exactly
+/// that transaction with only the guard parameter removed.
+pub fn differential(sim: &mut Sim, ev: &Event, orig_op: &Op, sender: &str, pre: &PreObs, cov: &mut Cover) {
     if let Some(g) = guarded_swap(&ev.op) {
         if g.max_spread.is_none() {
             return;
         }
-        let bare = strip_swap_guard(&ev.op);
+        let bare = strip_swap_guard(orig_op);
         let (out, _delta, _trace) = sim.dry_run(sender, &bare, None);
         if !out.is_ok() {
             cov.reach("C10.failed_for_other_reason");
@@ -426,7 +434,7 @@ pub fn differential(sim: &mut Sim, ev: &Event, sender: &str, pre: &PreObs, cov: 
             }
             return;
         }
-        let bare = strip_swap_guard(&ev.op);
+        let bare = strip_swap_guard(orig_op);
         let (out, _delta, _trace) = sim.dry_run(sender, &bare, None);
         if !out.is_ok() {
             cov.reach("C15.failed_for_other_reason");
